@@ -46,3 +46,71 @@ func c16StableSorts(c *core.Check) {
 		r.Anchor("calls of package sort in html/layout, html/document, html/boxes")
 	}
 }
+
+// c16ViewportOverflow (R14): the overflow of the root element — or of <body> when the root's is visible — is
+// propagated to the viewport, and the element it was taken from is then treated as overflow: visible (CSS Overflow
+// §3.3).  In setViewportOverflow the box whose overflow is stored into ViewportOverflow is the box whose style is
+// reset: the two are the same value.  (Resetting the root while the value came from <body> leaves <body> clipping
+// its sub-tree and forming a stacking context of its own.)
+func c16ViewportOverflow(c *core.Check) {
+	p := c.Prog
+	r := c.Rule("R14", "the propagated overflow is reset where it was taken: in html/boxes.setViewportOverflow the box whose GetOverflow() is stored into ViewportOverflow and the box whose style receives SetOverflow(\"visible\") are the same value", 1)
+	fn := p.Fn("html/boxes", "setViewportOverflow")
+	if fn == nil {
+		r.Anchor("html/boxes.setViewportOverflow")
+		return
+	}
+	key := "html/boxes.setViewportOverflow | reset where taken"
+	// the box behind X.Box().Style.<method>()
+	boxOf := func(call *ssa.Call) ssa.Value {
+		v := call.Call.Value
+		for i := 0; i < 6 && v != nil; i++ {
+			switch x := v.(type) {
+			case *ssa.UnOp:
+				v = x.X
+			case *ssa.FieldAddr:
+				v = x.X
+			case *ssa.Field:
+				v = x.X
+			case *ssa.Call:
+				if x.Call.IsInvoke() && x.Call.Method.Name() == "Box" {
+					return x.Call.Value
+				}
+				return nil
+			default:
+				return nil
+			}
+		}
+		return nil
+	}
+	var taken, reset []ssa.Value
+	core.Instrs(fn, func(in ssa.Instruction) {
+		switch x := in.(type) {
+		case *ssa.Store:
+			if fa, ok := x.Addr.(*ssa.FieldAddr); ok && core.FieldName(fa) == "ViewportOverflow" {
+				core.Instrs(fn, func(in2 ssa.Instruction) {
+					if call, ok := in2.(*ssa.Call); ok && call.Call.IsInvoke() && call.Call.Method.Name() == "GetOverflow" {
+						if core.DerivesFrom(x.Val, func(v ssa.Value) bool { return v == ssa.Value(call) }) {
+							if b := boxOf(call); b != nil {
+								taken = append(taken, b)
+							}
+						}
+					}
+				})
+			}
+		case *ssa.Call:
+			if x.Call.IsInvoke() && x.Call.Method.Name() == "SetOverflow" && len(x.Call.Args) == 1 {
+				if k, ok := core.ConstStr(core.Unwrap(x.Call.Args[0])); ok && k == "visible" {
+					if b := boxOf(x); b != nil {
+						reset = append(reset, b)
+					}
+				}
+			}
+		}
+	})
+	if len(taken) != 1 || len(reset) != 1 {
+		r.Unknown(key, p.Pos(fn.Pos()), fmt.Sprintf("%d boxes whose overflow is stored into ViewportOverflow, %d boxes reset to visible (1 and 1 expected)", len(taken), len(reset)))
+		return
+	}
+	r.Cond(taken[0] == reset[0], key, p.Pos(fn.Pos()), "the same box", "the overflow propagated to the viewport is taken from one box and another box is reset to visible: the box it was taken from keeps clipping its sub-tree")
+}
